@@ -34,21 +34,21 @@ QUESTIONS: Dict[str, List[Tuple[str, int, bool]]] = {
     "ptrb-qu+ptr-qm": [("_b._tcp.local.", 12, True), (TA, 12, False)], "other-qu": [("_zz._tcp.local.", 12, True)],
 }
 # ages of the host's own last multicast (ms after the last announcement looped back) around ttl/4 of 60/120/300/4500 s
-AGES = {"fresh": 5_000, "15s-1": 14_999, "15s": 15_000, "15s+1": 15_001, "30s-1": 29_999, "30s": 30_000, "30s+1": 30_001,
+AGES = {"400ms": 400, "fresh": 5_000, "15s-1": 14_999, "15s": 15_000, "15s+1": 15_001, "30s-1": 29_999, "30s": 30_000, "30s+1": 30_001,
         "75s": 75_000, "75s+1": 75_001, "200s": 200_000, "1125s-1": 1_124_999, "1125s": 1_125_000, "1125s+1": 1_125_001,
         "5000s": 5_000_000}
 
 
 def grid(tier: str) -> List[Dict[str, Any]]:
     pts = []
-    ages = list(AGES) if tier != "quick" else ["fresh", "30s-1", "30s", "30s+1", "200s", "1125s-1", "1125s+1", "5000s"]
+    ages = list(AGES) if tier != "quick" else ["400ms", "fresh", "30s-1", "30s", "30s+1", "200s", "1125s-1", "1125s+1", "5000s"]
     for q, probe, id_, port, fam, age, socks in itertools.product(
             QUESTIONS, (False, True), (0, 0x1234), (5353, 1234), ("v4", "v6"), ages, ("single", "dual")):
         if fam == "v6" and socks == "single":
             continue
         if tier == "quick" and (id_ == 0 and port == 1234 or id_ == 0x1234 and port == 5353 and probe):
             continue
-        if tier == "quick" and socks == "dual" and age not in ("fresh", "30s+1", "5000s"):
+        if tier == "quick" and socks == "dual" and age not in ("400ms", "fresh", "30s+1", "5000s"):
             continue
         pts.append({"q": q, "probe": probe, "id": id_, "port": port, "fam": fam, "age": age, "socks": socks})
     return pts
@@ -126,7 +126,10 @@ def run_point(p: Dict[str, Any], verbose: bool = False) -> Tuple[Optional[Dict[s
             for i, ttl in recs.items():
                 if legacy:
                     uni.add(i)
-                    mc_any.add(i)
+                    if p["probe"]:
+                        mc_now.add(i)  # probe queries are answered at once, whatever was multicast a moment ago
+                    else:
+                        mc_any.add(i)
                 elif qu:
                     rc = recency(i, ttl)
                     if p["probe"]:
